@@ -48,7 +48,15 @@ ENGINES = {
 CHECKS = {}
 
 
-def add(pid, engine, text, technique=T_BOTH, category="model_checking", note=NOTE):
+T_S2C_ONLY = ("TLA+ specification model checked exhaustively with TLC (per transition, per state table, history-unfolded) "
+              "and simulated; bound to the code by replaying every TLC-generated behaviour / state table on the real "
+              "code through its public API")
+S2C_ONLY = {"C03", "C08", "C09", "C10", "C13", "C18"}
+
+
+def add(pid, engine, text, technique=None, category="model_checking", note=NOTE):
+    if technique is None:
+        technique = T_S2C_ONLY if pid in S2C_ONLY else T_BOTH
     CHECKS[pid] = (engine, category, text, f"DESIGN.md section 6 {pid}", technique, note)
 
 
@@ -87,15 +95,13 @@ add("C11", "tlc-fog", "Antichain, Commute, MarkIsExplores, RefusedUnchanged, Val
     "(answer in the acceptable set defined from containment and sorted neighbours) are model checked over every "
     "exploration sequence of bounded depth; every transition is replayed on real fog objects, every earlier object "
     "is re-examined for immutability, serialisation is decoded with an independent hex-prefix decoder and every "
-    "query key is asked after every transition",
-    technique="TLA+ specification model checked exhaustively with TLC and simulated; bound to the code by replaying "
-    "every TLC-generated transition (and random long behaviours) on the real class through its public API")
+    "query key is asked after every transition; recorded histories of real fog objects over all 16 nibbles are "
+    "validated by TLC")
 add("C17", "tlc-scratchdb", "the action properties WrappedOnlyOnCommit, CommitApplies (last action per key wins, deletes "
     "only if requested), AbortKeeps (Exception and BaseException exits) and BufferEmptiedOnExit and the invariant "
     "ReadSeesLatest are model checked over every initial content and every call sequence; all behaviours up to a "
-    "bounded length (history kept in the state, no merging) and random long ones are replayed on the real class",
-    technique="TLA+ specification model checked exhaustively with TLC and simulated; bound to the code by replaying "
-    "every TLC-generated behaviour on the real class through its public API")
+    "bounded length (history kept in the state, no merging) and random long ones are replayed on the real class; "
+    "recorded histories on arbitrary byte keys and values are validated by TLC")
 add("C09", "tlc-fogwalk", "all schedules of the bounded model: every initial trie, every order of exploration, every "
     "interleaving with a bounded number of inserts / overwrites / deletes, frontier cache on and off, pruning on and "
     "off (stale cache entries -> MissingTraversalNode -> entry dropped); Antichain, NothingInvented, WalkComplete, "
@@ -110,21 +116,20 @@ T_S2C = ("TLA+ specification model checked exhaustively with TLC and simulated; 
 add("C12", "tlc-binary", "Canonical (root = BCanon(contents)), MapOK, PrefixFree, RefusalRule (set refused exactly on a "
     "prefix conflict, refused calls change nothing, refused deletes would have changed nothing), AppendOnly and "
     "PastRootsReadable are model checked over all histories of set / delete / delete_subtrie; every transition is "
-    "replayed and get / exists / root hash / exception class / earlier roots compared", technique=T_S2C)
+    "replayed and get / exists / root hash / exception class / earlier roots compared")
 add("C13", "tlc-binary", "BranchOrRefusal, BranchConfirms, BranchUnforgeable (every subset of the branch with the rest "
     "of the database), ExistsIffPrefix, TrieNodesExact, WitnessSound, WitnessSufficient, WitnessRefusal are invariants "
     "of every reachable trie; for every reachable state the real helpers are run on every key / prefix and "
     "if_branch_valid is offered every corrupted branch (node removed, truncated, node altered, branch of another "
-    "key) with every claimed value", technique=T_S2C)
+    "key) with every claimed value")
 add("C14", "tlc-smt", "IsFull (tree = FullTree(contents)), GetMatches, ClearedIsInitial, BranchVerifies and "
     "UpdateListIsPath are model checked over all histories of set / delete with blank and non-blank default for "
     "key sizes 1, 2 and 8 (thorough 32); every transition replayed: root, get, exists, branch, calc_root, returned "
-    "hashes, from_db", technique=T_S2C)
+    "hashes, from_db")
 add("C15", "tlc-smt", "ProofInSync and ShortestListSuffices are model checked with any tracked key, every update "
     "stream of bounded length and every truncation length of the streamed hash list, key sizes 1, 2, 8 and 32 with "
     "key pairs whose difference is a long run of ones; every transition replayed on a real SparseMerkleProof "
-    "(refusal exactly when too short, proof unchanged by a refusal, value / branch / root equal to the tree's)",
-    technique=T_S2C)
+    "(refusal exactly when too short, proof unchanged by a refusal, value / branch / root equal to the tree's)")
 add("C16", "tlc-codec", "exhaustive enumeration by TLC of a bounded input domain (all nibble sequences up to length 3 "
     "(thorough 5) with and without terminator, all bit strings up to length 9 (13), all byte strings of length <= 1 "
     "(2), every (type byte, length) node shape); the round-trip laws are invariants over the TLA+ definitions and every "
